@@ -93,15 +93,16 @@ def s2(d: str, lazy: bool = False, search: str = "nearest_shortest_queue", name:
     c0, ca, cb = tie_across_search_cells()
     write_global_config(d, log_stats=True, lazy=lazy)
     vehicles = [
-        # two low vehicles on a station cell (both told to plug in in the same step)
-        {"id": "v1", "cell": S["N1"], "soc": 0.015},
-        {"id": "v2", "cell": S["N1"], "soc": 0.015},
-        # low vehicles at equal distance from the single-plug station sq (arrive in the same step -> queue order)
-        {"id": "v9", "cell": S["N2"], "soc": 0.015},
-        {"id": "v3", "cell": S["N3"], "soc": 0.015},
+        # two low small-battery vehicles on a station cell (both told to plug in in the same step); the one that gets the
+        # plug is full enough to leave after a few steps, i.e. it RELEASES the plug while others wait
+        {"id": "v1", "cell": S["N1"], "soc": 0.2, "mech": "small"},
+        {"id": "v2", "cell": S["N1"], "soc": 0.2, "mech": "small"},
+        # low vehicles at equal distance from s0: they arrive in the same step and join the queue with the SAME enqueue time
+        {"id": "v9", "cell": S["N2"], "soc": 0.015, "mech": "thirsty"},
+        {"id": "v3", "cell": S["N3"], "soc": 0.015, "mech": "thirsty"},
         # a low vehicle whose nearest stations tie across search cells
-        {"id": "v5", "cell": c0, "soc": 0.015},
-        {"id": "v7", "cell": S["A"], "soc": 0.6},
+        {"id": "v5", "cell": c0, "soc": 0.015, "mech": "thirsty"},
+        {"id": "v7", "cell": S["A"], "soc": 0.6, "mech": "thirsty"},
     ]
     stations = [
         ("s0", S["N1"], "DCFC", 1, True), ("s0", S["N1"], "LEVEL_2", 1, True),  # two usable plug types, equal queues
@@ -115,6 +116,7 @@ def s2(d: str, lazy: bool = False, search: str = "nearest_shortest_queue", name:
         d, name, start=0, end=1800, step=60, cancel=300, vehicles=vehicles, requests=reqs,
         bases=[("b0", S["M1"], None, 1)], stations=stations, prices=prices, price_key="geoid",
         dispatcher=dict(LOW_DISPATCH, charging_search_type=search),
+        mechatronics_file=os.path.join(os.path.dirname(os.path.dirname(os.path.abspath(__file__))), "worlds", "mechatronics.yaml"),
     )
 
 
